@@ -6,7 +6,7 @@ use crate::report::{self, Report, Violation};
 use serde_json::json;
 use std::collections::{BTreeMap, BTreeSet};
 
-const FORMS: [&str; 23] = [
+const FORMS: [&str; 25] = [
     "use-single", "use-group", "use-nested-group", "use-glob", "qualified-path", "qualified-nested-path", "use-crate", "use-super", "use-self",
     // the target as a generic argument of a type of a third crate
     "qualified-generic-of-qualified", "qualified-generic-of-used", "used-generic-of-qualified", "qualified-generic-of-nested-qualified",
@@ -18,6 +18,8 @@ const FORMS: [&str; 23] = [
     "use-glob-plus-named", "use-named-plus-glob-plus-qualified",
     // the referring file also declares an item whose type parameter has the target's name (parameters are scoped to their item)
     "use-single-beside-item-with-parameter-of-that-name", "qualified-path-beside-item-with-parameter-of-that-name",
+    // the use declaration carries a visibility (a re-export is still what brings the name into the file)
+    "pub-use-single", "pub-crate-use-group",
 ];
 
 fn third_crate(form: &str) -> bool {
@@ -62,6 +64,8 @@ fn workspace(c: &Case) -> Vec<(String, String)> {
     let (use_line, ty) = match c.form {
         "use-single" => (format!("use {tc}::Target;\n"), "Target".to_string()),
         "use-group" => (format!("use {tc}::{{Target, Sibling}};\n"), "Target".to_string()),
+        "pub-use-single" => (format!("pub use {tc}::Target;\n"), "Target".to_string()),
+        "pub-crate-use-group" => (format!("pub(crate) use {tc}::{{Target, Sibling}};\n"), "Target".to_string()),
         "use-nested-group" => (format!("use {tc}::{{inner::{{Target}}}};\n"), "Target".to_string()),
         "use-glob" => (format!("use {tc}::*;\n"), "Target".to_string()),
         "use-glob-plus-named" => (format!("use {tc}::*;\nuse {tc}::Sibling;\n#[typeshare]\npub struct AlsoUses {{ pub s: Sibling }}\n"), "Target".to_string()),
@@ -754,7 +758,7 @@ pub fn run(args: &[String]) -> i32 {
                                     cases.push(Case { form, renamed, mapped, homonym, homonym_renamed: true, position, deep, dashed: renamed, lang, target_kind: "struct" });
                                 }
                                 // the other kinds of target for the plain reference forms (thorough: every form)
-                                if !mapped && !homonym && !deep && position == "field" && (thorough || ["use-single", "use-group", "use-glob", "qualified-path", "use-crate"].contains(&form)) {
+                                if !mapped && !homonym && !deep && position == "field" && (thorough || ["use-single", "use-group", "use-glob", "qualified-path", "use-crate", "pub-use-single"].contains(&form)) {
                                     for kind in &TARGET_KINDS[1..] {
                                         cases.push(Case { form, renamed, mapped, homonym, homonym_renamed: false, position, deep, dashed: renamed, lang, target_kind: kind });
                                     }
